@@ -64,8 +64,12 @@ class C13(Prop):
             t = t + k * P
             stamps.append(t)
         mode = rng.choice(['online', 'online_only', 'offline', 'offline_only'])
+        self._after_reset = None
+        if mode.startswith('online') and rng.random() < 0.25:
+            self._after_reset = [float(Fr(k) * P * rng.choice([1, 1, 3])) for k in range(rng.randint(1, 4))]
         return {'period': [period, punit], 'unit': unit, 'tol': tol, 'stamps': [float(s) for s in stamps],
-                'mode': mode, 'text': rng.choice(FORMULAS), 'values': lang.gen_values(rng, n, 'small')}
+                'mode': mode, 'text': rng.choice(FORMULAS), 'values': lang.gen_values(rng, n, 'small'),
+                'after_reset': self._after_reset}
 
     def judge(self, case):
         v = Verdict()
@@ -93,6 +97,12 @@ class C13(Prop):
             sd['text'] = text
         try:
             m = drive.Mon(kind, sd)
+            if case['mode'].startswith('online') and case.get('after_reset'):
+                # an earlier run on the same object, then reset(): the count must be that of the new run alone
+                for j, t0 in enumerate(case['after_reset']):
+                    m.update(t0, [('x', 0.0)])
+                m.reset()
+                v.info['after-reset-runs'] = 1
             if case['mode'].startswith('online'):
                 out = [m.update(stamps[i], [('x', vals[i])]) for i in range(n)]
             else:
